@@ -140,3 +140,99 @@ def run_case(case, acc):
     finally:
         sesswl.CUR[0] = None
     return tr
+
+
+# ---------------------------------------------------------------------------
+# C19 at the portfolio-construction level: one real StaticUniverse object lives through several rebalances of a
+# portfolio that also holds assets outside the universe; the universe-driven alpha model weights its members.
+# ---------------------------------------------------------------------------
+
+def gen_c19_case(rng):
+    case = gen_case(rng)
+    n = len(case['assets'])
+    k = rng.randint(1, max(1, n - 1))
+    case['static_universe'] = rng.sample(case['assets'], k)
+    case['signal'] = rng.choice([1.0, 0.5] if case['long_only'] else [1.0, -1.0])
+    if not any(a not in case['static_universe'] for a in case['seed_holdings']):
+        outside = [a for a in case['assets'] if a not in case['static_universe']]
+        if outside:
+            case['seed_holdings'][rng.choice(outside)] = rng.randint(1, 300)
+    return case
+
+
+def run_c19_case(case, acc):
+    sesswl.hook()
+    from qstrader.alpha_model.single_signal import SingleSignalAlphaModel
+    from qstrader.asset.universe.static import StaticUniverse
+    from qstrader.broker.simulated_broker import SimulatedBroker
+    from qstrader.exchange.simulated_exchange import SimulatedExchange
+    from qstrader.broker.fee_model.zero_fee_model import ZeroFeeModel
+    from qstrader.execution.order import Order
+    from qstrader.portcon.pcm import PortfolioConstructionModel
+    from qstrader.portcon.optimiser.fixed_weight import FixedWeightPortfolioOptimiser
+    from qstrader.portcon.order_sizer.dollar_weighted import DollarWeightedCashBufferedOrderSizer
+    from qstrader.portcon.order_sizer.long_short import LongShortLeveragedOrderSizer
+    t = bw.ts('2021-03-01 15:00:00')
+    book = bw.QuoteBook()
+    book.now = t
+    for a, q in case['steps'][0]['quotes'].items():
+        book.set(a, *q)
+    broker = SimulatedBroker(t, SimulatedExchange(t), book, initial_funds=case['cash'], fee_model=ZeroFeeModel())
+    broker.create_portfolio('P')
+    broker.subscribe_funds_to_portfolio('P', case['cash'])
+    for a, q in case['seed_holdings'].items():
+        broker.submit_order('P', Order(t, a, abs(q)))
+    broker.update(t)
+    configured = list(case['static_universe'])
+    uni = StaticUniverse(list(configured))
+    alpha = SingleSignalAlphaModel(uni, signal=case['signal'])
+    if case['long_only']:
+        sizer = DollarWeightedCashBufferedOrderSizer(broker, 'P', book, cash_buffer_percentage=case['buffer'])
+    else:
+        sizer = LongShortLeveragedOrderSizer(broker, 'P', book, gross_leverage=case['leverage'])
+    pcm = PortfolioConstructionModel(broker, 'P', uni, sizer, FixedWeightPortfolioOptimiser(), alpha_model=alpha)
+    tr = sesswl.Trace()
+    sesswl.CUR[0] = tr
+    stats = {'target_allocations': []}
+    sold_out = set()
+    try:
+        for i, st in enumerate(case['steps']):
+            t = t + pd.Timedelta(days=1 if t.weekday() < 4 else 3)
+            book.now = t
+            for a, q in st['quotes'].items():
+                book.set(a, *q)
+            broker.update(t)
+            orders = pcm(t, stats=stats)
+            rec = tr.pcm[-1]
+            got = list(uni.get_assets(t))
+            if got != configured:
+                raise Violation('C19', 'static-universe-changed', 'after %d rebalance(s) the static universe yields %s, '
+                                'configured %s (held before this rebalance: %s)' % (i + 1, got, configured, sorted(rec['held'])), {})
+            row = rec['row'] or {}
+            for a in set(row) - {'Date'}:
+                if a not in configured and a not in rec['held']:
+                    raise Violation('C19', 'weight-outside-universe', 'asset %s is neither a universe member nor held but '
+                                    'has a target weight at rebalance %d' % (a, i + 1), {})
+                if a not in configured and row[a] != 0.0:
+                    raise Violation('C19', 'weight-outside-universe', 'held asset %s outside the universe got weight %r at '
+                                    'rebalance %d' % (a, row[a], i + 1), {})
+                if a in configured and row[a] != case['signal']:
+                    raise Violation('C19', 'member-weight', 'member %s has weight %r, alpha gives %r' % (a, row[a], case['signal']), {})
+            for a, q in rec['orders']:
+                if a not in configured and a not in rec['held']:
+                    raise Violation('C19', 'order-outside-universe', 'order for %s which is neither member nor held' % a, {})
+                if a in sold_out:
+                    raise Violation('C19', 'order-outside-universe', 'asset %s left the portfolio and is outside the '
+                                    'universe but is ordered again at rebalance %d' % (a, i + 1), {})
+            for o in orders:
+                broker.submit_order('P', o)
+            broker.update(t)
+            held = set(broker.get_portfolio_as_dict('P'))
+            for a in held:
+                if a not in configured:
+                    raise Violation('C19', 'position-outside-universe', 'asset %s is outside the universe but still held '
+                                    'after rebalance %d' % (a, i + 1), {})
+            sold_out |= {a for a in rec['held'] if a not in configured}
+            acc.count('C19:pcm_level_rebalances')
+    finally:
+        sesswl.CUR[0] = None
